@@ -40,15 +40,21 @@ VARIABLES dial,        \* index of the current dial (0 = none yet)
           cres, sres,  \* outcome of Dial / Accept: None | "ok" | "err"
           cfin, sfin,  \* negotiated version reported by each side
           echo,        \* application data moved both ways
-          prevAttempt  \* <<version, dcid>> of the attempt abandoned after version negotiation (its stragglers may still appear)
-hvars == <<dial, phase, cver, cdcid, odcid, vnUsed, retryUsed, vnOffer, retryIDs, badRetryIDs, srvIDs, rcvdFirst, cres, sres, cfin, sfin, echo, prevAttempt>>
+          prevAttempt, \* <<version, dcid>> of the attempt abandoned after version negotiation (its stragglers may still appear)
+          cSentHs,     \* the client has sent a Handshake packet (it has discarded its Initial keys)
+          mayFail,     \* an attacker's packet arrived at a moment where QUIC cannot tell it from a genuine one
+          early        \* 0-RTT: [sent |-> streams written as early data, used |-> server accepted 0-RTT or "unknown", got |-> deliveries per stream]
+hvars == <<dial, phase, cver, cdcid, odcid, vnUsed, retryUsed, vnOffer, retryIDs, badRetryIDs, srvIDs, rcvdFirst, cres, sres, cfin, sfin, echo, prevAttempt, cSentHs, mayFail, early>>
 
+NoEarly == [sent |-> {}, used |-> "unknown", got |-> <<>>]
 Fresh == /\ cver' = 0 /\ cdcid' = None /\ odcid' = None /\ vnUsed' = FALSE /\ retryUsed' = FALSE
          /\ vnOffer' = {} /\ retryIDs' = {} /\ badRetryIDs' = {} /\ srvIDs' = {} /\ rcvdFirst' = FALSE
          /\ cres' = None /\ sres' = None /\ cfin' = 0 /\ sfin' = 0 /\ echo' = None /\ prevAttempt' = <<0, None>>
+         /\ cSentHs' = FALSE /\ mayFail' = FALSE /\ early' = NoEarly
 HInit == /\ dial = 0 /\ phase = "idle" /\ cver = 0 /\ cdcid = None /\ odcid = None /\ vnUsed = FALSE /\ retryUsed = FALSE
          /\ vnOffer = {} /\ retryIDs = {} /\ badRetryIDs = {} /\ srvIDs = {} /\ rcvdFirst = FALSE
          /\ cres = None /\ sres = None /\ cfin = 0 /\ sfin = 0 /\ echo = None /\ prevAttempt = <<0, None>>
+         /\ cSentHs = FALSE /\ mayFail = FALSE /\ early = NoEarly
 HReset == dial' = 0 /\ phase' = "idle" /\ Fresh
 
 Range(s) == { s[i] : i \in DOMAIN s }
@@ -60,14 +66,14 @@ ClientFresh(ver, dcid) ==
      THEN /\ ver = ClientVersions[1]                         \* the first attempt offers the preferred version
           /\ odcid' = dcid /\ UNCHANGED <<vnUsed, retryUsed, prevAttempt>>
      ELSE /\ IF ver # cver
-             THEN /\ ~vnUsed /\ ver \in vnOffer /\ ver \in Range(ClientVersions) /\ cver \notin vnOffer
+             THEN /\ ~vnUsed /\ ver \in vnOffer /\ ver \in Range(ClientVersions)
                   /\ vnUsed' = TRUE /\ odcid' = dcid /\ prevAttempt' = <<cver, odcid>> /\ UNCHANGED retryUsed   \* a fresh attempt after version negotiation
              ELSE /\ IF dcid # cdcid /\ dcid \notin srvIDs /\ ~rcvdFirst   \* (later the server may have issued further IDs under encryption)
                      THEN /\ ~retryUsed /\ dcid \in retryIDs /\ retryUsed' = TRUE  \* following a (valid) Retry
                      ELSE UNCHANGED retryUsed
                   /\ UNCHANGED <<vnUsed, odcid, prevAttempt>>
   /\ cver' = ver /\ cdcid' = dcid
-  /\ UNCHANGED <<dial, phase, vnOffer, retryIDs, badRetryIDs, srvIDs, rcvdFirst, cres, sres, cfin, sfin, echo>>
+  /\ UNCHANGED <<dial, phase, vnOffer, retryIDs, badRetryIDs, srvIDs, rcvdFirst, cres, sres, cfin, sfin, echo, cSentHs, mayFail, early>>
 
 \* the client puts an Initial packet on the wire
 ClientInitial(ver, dcid) ==
@@ -78,39 +84,75 @@ ClientInitial(ver, dcid) ==
 
 \* packets reaching the client
 DeliverVN(versions) ==
-  /\ vnOffer' = IF rcvdFirst \/ vnUsed THEN vnOffer ELSE vnOffer \cup versions
-  /\ UNCHANGED <<dial, phase, cver, cdcid, odcid, vnUsed, retryUsed, retryIDs, badRetryIDs, srvIDs, rcvdFirst, cres, sres, cfin, sfin, echo, prevAttempt>>
+  \* a Version Negotiation packet that lists the offered version is ignored
+  /\ vnOffer' = IF rcvdFirst \/ vnUsed \/ cver \in versions THEN vnOffer ELSE vnOffer \cup versions
+  /\ UNCHANGED <<dial, phase, cver, cdcid, odcid, vnUsed, retryUsed, retryIDs, badRetryIDs, srvIDs, rcvdFirst, cres, sres, cfin, sfin, echo, prevAttempt, cSentHs, mayFail, early>>
 DeliverRetry(scid, tagOK) ==
   /\ retryIDs' = IF tagOK /\ ~rcvdFirst /\ ~retryUsed /\ scid # cdcid THEN retryIDs \cup {scid} ELSE retryIDs
   /\ badRetryIDs' = IF tagOK THEN badRetryIDs ELSE badRetryIDs \cup {scid}
-  /\ UNCHANGED <<dial, phase, cver, cdcid, odcid, vnUsed, retryUsed, vnOffer, srvIDs, rcvdFirst, cres, sres, cfin, sfin, echo, prevAttempt>>
-DeliverServerPacket(scid) ==
-  /\ rcvdFirst' = TRUE /\ srvIDs' = srvIDs \cup {scid}
-  /\ UNCHANGED <<dial, phase, cver, cdcid, odcid, vnUsed, retryUsed, vnOffer, retryIDs, badRetryIDs, cres, sres, cfin, sfin, echo, prevAttempt>>
+  /\ UNCHANGED <<dial, phase, cver, cdcid, odcid, vnUsed, retryUsed, vnOffer, srvIDs, rcvdFirst, cres, sres, cfin, sfin, echo, prevAttempt, cSentHs, mayFail, early>>
+\* (a Handshake packet can only be processed once an Initial packet has been: only Initial packets count as
+\*  "a genuine packet has been processed")
+DeliverServerPacket(scid, kind) ==
+  /\ rcvdFirst' = (rcvdFirst \/ kind = "initial") /\ srvIDs' = srvIDs \cup {scid}
+  /\ UNCHANGED <<dial, phase, cver, cdcid, odcid, vnUsed, retryUsed, vnOffer, retryIDs, badRetryIDs, cres, sres, cfin, sfin, echo, prevAttempt, cSentHs, mayFail, early>>
+
+\* ---- attacker (C13): forged packets reaching the client
+\* A forged Version Negotiation / Retry packet is indistinguishable from a genuine one only before the first
+\* genuine server packet was processed; a correctly keyed forged Initial only while the client still holds
+\* Initial keys.  In those windows the handshake may fail (cleanly); outside them nothing may change.
+InjectedVN(versions) ==
+  /\ mayFail' = (mayFail \/ (~rcvdFirst /\ ~vnUsed /\ cver \notin versions))
+  /\ vnOffer' = IF rcvdFirst \/ vnUsed \/ cver \in versions THEN vnOffer ELSE vnOffer \cup versions
+  /\ UNCHANGED <<dial, phase, cver, cdcid, odcid, vnUsed, retryUsed, retryIDs, badRetryIDs, srvIDs, rcvdFirst, cres, sres, cfin, sfin, echo, prevAttempt, cSentHs, early>>
+InjectedInitialClose ==
+  /\ mayFail' = (mayFail \/ ~cSentHs)
+  /\ UNCHANGED <<dial, phase, cver, cdcid, odcid, vnUsed, retryUsed, vnOffer, retryIDs, badRetryIDs, srvIDs, rcvdFirst, cres, sres, cfin, sfin, echo, prevAttempt, cSentHs, early>>
+ClientHandshakePkt ==
+  /\ cSentHs' = TRUE
+  /\ UNCHANGED <<dial, phase, cver, cdcid, odcid, vnUsed, retryUsed, vnOffer, retryIDs, badRetryIDs, srvIDs, rcvdFirst, cres, sres, cfin, sfin, echo, prevAttempt, mayFail, early>>
+
+\* ---- 0-RTT
+EarlyWrite(sid) ==
+  /\ early' = [early EXCEPT !.sent = @ \cup {sid}]
+  /\ UNCHANGED <<dial, phase, cver, cdcid, odcid, vnUsed, retryUsed, vnOffer, retryIDs, badRetryIDs, srvIDs, rcvdFirst, cres, sres, cfin, sfin, echo, prevAttempt, cSentHs, mayFail>>
+EarlyOutcome(used) ==
+  /\ early' = [early EXCEPT !.used = used]
+  /\ UNCHANGED <<dial, phase, cver, cdcid, odcid, vnUsed, retryUsed, vnOffer, retryIDs, badRetryIDs, srvIDs, rcvdFirst, cres, sres, cfin, sfin, echo, prevAttempt, cSentHs, mayFail>>
+\* the server application received the data of early stream sid
+EarlyDelivered(sid) ==
+  /\ early' = [early EXCEPT !.got = Append(@, sid)]
+  /\ UNCHANGED <<dial, phase, cver, cdcid, odcid, vnUsed, retryUsed, vnOffer, retryIDs, badRetryIDs, srvIDs, rcvdFirst, cres, sres, cfin, sfin, echo, prevAttempt, cSentHs, mayFail>>
 
 DialEnd(res, ver) ==
   /\ phase = "dialing" /\ cres = None /\ cres' = res /\ cfin' = ver
   /\ (res = "ok" => ver = cver /\ ver \in ServerVersions)
-  /\ UNCHANGED <<dial, phase, cver, cdcid, odcid, vnUsed, retryUsed, vnOffer, retryIDs, badRetryIDs, srvIDs, rcvdFirst, sres, sfin, echo, prevAttempt>>
+  /\ UNCHANGED <<dial, phase, cver, cdcid, odcid, vnUsed, retryUsed, vnOffer, retryIDs, badRetryIDs, srvIDs, rcvdFirst, sres, sfin, echo, prevAttempt, cSentHs, mayFail, early>>
 AcceptEnd(res, ver) ==
   /\ phase = "dialing" /\ sres = None /\ sres' = res /\ sfin' = ver
   /\ (res = "ok" => ver \in ServerVersions)
-  /\ UNCHANGED <<dial, phase, cver, cdcid, odcid, vnUsed, retryUsed, vnOffer, retryIDs, badRetryIDs, srvIDs, rcvdFirst, cres, cfin, echo, prevAttempt>>
+  /\ UNCHANGED <<dial, phase, cver, cdcid, odcid, vnUsed, retryUsed, vnOffer, retryIDs, badRetryIDs, srvIDs, rcvdFirst, cres, cfin, echo, prevAttempt, cSentHs, mayFail, early>>
 Echo(ok) ==
   /\ phase = "dialing" /\ echo' = (IF ok THEN "ok" ELSE "bad")
-  /\ UNCHANGED <<dial, phase, cver, cdcid, odcid, vnUsed, retryUsed, vnOffer, retryIDs, badRetryIDs, srvIDs, rcvdFirst, cres, sres, cfin, sfin, prevAttempt>>
+  /\ UNCHANGED <<dial, phase, cver, cdcid, odcid, vnUsed, retryUsed, vnOffer, retryIDs, badRetryIDs, srvIDs, rcvdFirst, cres, sres, cfin, sfin, prevAttempt, cSentHs, mayFail, early>>
 DialDone ==
   /\ phase = "dialing" /\ phase' = "ended"
-  /\ UNCHANGED <<dial, cver, cdcid, odcid, vnUsed, retryUsed, vnOffer, retryIDs, badRetryIDs, srvIDs, rcvdFirst, cres, sres, cfin, sfin, echo, prevAttempt>>
+  /\ UNCHANGED <<dial, cver, cdcid, odcid, vnUsed, retryUsed, vnOffer, retryIDs, badRetryIDs, srvIDs, rcvdFirst, cres, sres, cfin, sfin, echo, prevAttempt, cSentHs, mayFail, early>>
 
 ----------------------------------------------------------------------------
 \* both complete and agree, or the failing side reported an error (never a half-open success)
 AgreeOrFail == phase = "ended" =>
   /\ cres # None
   /\ (cres = "ok" /\ sres = "ok") => cfin = sfin
-  /\ cres = "ok" => sres = "ok"
+  /\ (cres = "ok" /\ ~mayFail) => sres = "ok"     \* (a forged packet inside its window may still kill the client right after completion)
 \* the scenario's faults are bounded and nobody forges packets that can legitimately break it:
 \* the handshake completes and data moves both ways - for every dial index
-DialCompletes == (MustSucceed /\ phase = "ended") => (cres = "ok" /\ sres = "ok" /\ echo = "ok")
+DialCompletes == (MustSucceed /\ ~mayFail /\ phase = "ended") => (cres = "ok" /\ sres = "ok" /\ echo = "ok")
+\* 0-RTT data reaches the server application exactly once if 0-RTT was accepted and never if it was rejected
+EarlyDataOnceOrNever ==
+  (phase = "ended" /\ early.used # "unknown") =>
+     /\ (early.used = "rejected" => early.got = <<>>)
+     /\ (early.used = "accepted" => \A sid \in early.sent : Cardinality({i \in DOMAIN early.got : early.got[i] = sid}) = 1)
+     /\ \A i \in DOMAIN early.got : early.got[i] \in early.sent
 AtMostOneRetry == TRUE   \* structural: ClientInitial refuses a second connection-ID switch
 =============================================================================
